@@ -105,6 +105,8 @@ type Report struct {
 	ContractSource map[string]string
 	LoadS, GenS, SolveS float64
 	mods                []Module
+	crossAgree, crossUndecided int
+	unstable            []string
 }
 
 func (r *Report) allObls() []*Obligation {
@@ -167,6 +169,26 @@ func (r *Report) solveAll() {
 					continue
 				}
 				o.Result = Solve(text, o.Name, SolveOpts{QuickSec: quick, FullSec: full, Seed: r.Seed, Dir: r.cfg.TmpDir, Induction: o.Induct})
+				if r.Tier == "thorough" && o.Result.Status == "unsat" && o.Result.Solver != "trivial" {
+					// thorough tier: (1) an independent solver is asked as well - a `sat` from it is a disagreement and
+					// counts as a failure; (2) the same solver is asked again under another seed - an obligation that does
+					// not discharge again is listed as unstable in the evidence (not a failure)
+					file := filepath.Join(r.cfg.TmpDir, sanitizeFile(o.Name)+".smt2")
+					other := solverSpecs[2] // cvc5
+					if o.Result.Solver == "cvc5" || o.Result.Solver == "cvc5-ind" {
+						other = solverSpecs[0]
+					}
+					x := runSolver(context.Background(), other, file, 15, r.Seed)
+					o.Cross = x.Solver + ":" + x.Status
+					if x.Status == "sat" {
+						o.Result = SolverResult{Status: "disagreement", Solver: o.Result.Solver + " vs " + x.Solver, Output: "unsat by " + o.Result.Solver + ", sat by " + x.Solver}
+					} else if !o.Induct {
+						y := runSolver(context.Background(), solverSpecs[0], file, quick+5, r.Seed+7)
+						if y.Status != "unsat" {
+							o.Unstable = fmt.Sprintf("%s under seed %d: %s", y.Solver, r.Seed+7, y.Status)
+						}
+					}
+				}
 				if r.cfg.Verbose {
 					fmt.Fprintf(os.Stderr, "  %-8s %-6s %5dms %s\n", o.Result.Status, o.Result.Solver, o.Result.Ms, o.Name)
 				}
@@ -340,6 +362,21 @@ func (r *Report) finish(start time.Time) int {
 			}
 		}
 	}
+	crossAgree, crossUndecided := 0, 0
+	unstable := []string{}
+	for _, o := range r.allObls() {
+		if o.Cross != "" {
+			if strings.HasSuffix(o.Cross, ":unsat") {
+				crossAgree++
+			} else {
+				crossUndecided++
+			}
+		}
+		if o.Unstable != "" {
+			unstable = append(unstable, o.Name+": "+o.Unstable)
+		}
+	}
+	r.crossAgree, r.crossUndecided, r.unstable = crossAgree, crossUndecided, unstable
 	knownReported := []string{}
 	for _, ke := range r.Known.Entries {
 		if ke.Kind != "known" || ke.Property != r.Property {
@@ -426,6 +463,7 @@ func (r *Report) finish(start time.Time) int {
 		"bounded":                  map[string]any{"obligations": bounded, "discharged": boundedOK, "note": "bounded stand-ins are never counted under obligations/discharged", "items": spec.Bounded},
 		"not_decided":              spec.NotDecided,
 		"vacuity":                  map[string]any{"covers": coversTotal, "covers_sat": coversSat, "expected_min_obligations": spec.ExpectMinObligations, "expected_named": len(spec.ExpectObligations)},
+		"thorough_cross_check":     map[string]any{"second_solver_agrees_unsat": r.crossAgree, "second_solver_undecided": r.crossUndecided, "not_discharged_again_under_another_seed": r.unstable, "note": "thorough tier only: every discharged obligation is also given to an independent solver (a sat answer there is reported as a violation) and re-solved under a second seed"},
 		"solver_time_s":            st,
 		"phase_s":                  map[string]float64{"load": r.LoadS, "generate": r.GenS, "solve": r.SolveS},
 		"range_obligations_justifying_math_ints": rangeObls,
